@@ -192,8 +192,8 @@ var kindList = []string{"i32", "u8", "i64", "u64", "str", "f64", "bool", "struct
 
 // weighted choice of the map kind (bool pools have two keys and can never be non-trivial)
 var kindWeighted = []string{
-	"i32", "i32", "i32", "u8", "u8", "i64", "i64", "u64", "u64", "str", "str", "str",
-	"f64", "f64", "f64", "bool", "struct", "struct", "struct", "ptr", "ptr", "iface", "iface", "iface",
+	"str", "f64", "iface", "i32", "struct", "u8", "i64", "u64", "ptr", "str", "f64", "iface",
+	"i32", "struct", "u8", "i64", "u64", "ptr", "bool", "str", "f64", "iface", "i32", "struct",
 }
 
 func hexOf(s string) string { return hex.EncodeToString([]byte(s)) }
